@@ -9,6 +9,7 @@ import (
 	"go/types"
 	"math/big"
 	"strconv"
+	"strings"
 )
 
 type evalCtx struct {
@@ -18,8 +19,9 @@ type evalCtx struct {
 	names   map[string]nameRef // current locals (invariants)
 	oldHeap map[*Object]interface{}
 	oldEnv  map[string]Value
-	inOld   bool
-	pkg     *types.Package
+	inOld    bool
+	pkg      *types.Package
+	recDepth int
 }
 
 var (
@@ -373,6 +375,12 @@ func (c *evalCtx) evalCall(n *ast.CallExpr) Value {
 		return VBool{Eq(c.evalBool(n.Args[0]), c.evalBool(n.Args[1]))}
 	case "ite":
 		cond := c.evalBool(n.Args[0])
+		if cond.IsTrue() {
+			return c.eval(n.Args[1])
+		}
+		if cond.IsFalse() {
+			return c.eval(n.Args[2])
+		}
 		return mergeValues(cond, c.eval(n.Args[1]), c.eval(n.Args[2]))
 	case "tuple":
 		var el []Value
@@ -562,6 +570,41 @@ func (c *evalCtx) evalCall(n *ast.CallExpr) Value {
 		}
 		return r
 	}
+	if rd, ok := c.e.cs.RecDefs[fname]; ok {
+		return c.callRecDef(rd, n)
+	}
+	for _, lm := range c.e.cs.Lemmas {
+		if lm.Name == fname {
+			if len(lm.Params) != len(n.Args) {
+				panic(execError{"contract: wrong argument count for lemma " + fname})
+			}
+			args := make([]Value, len(n.Args))
+			for i, a := range n.Args {
+				args[i] = c.eval(a)
+			}
+			saved := map[string]Value{}
+			had := map[string]bool{}
+			for i, p := range lm.Params {
+				if v, ok := c.env[p]; ok {
+					saved[p], had[p] = v, true
+				}
+				c.env[p] = args[i]
+			}
+			sn, so := c.names, c.oldEnv
+			c.names, c.oldEnv = nil, nil
+			r := c.eval(lm.Body)
+			c.names, c.oldEnv = sn, so
+			for _, p := range lm.Params {
+				if had[p] {
+					c.env[p] = saved[p]
+				} else {
+					delete(c.env, p)
+				}
+			}
+			c.e.lemmasUsed[fname] = true
+			return r
+		}
+	}
 	if pf, ok := preludeFuns[fname]; ok {
 		var args []*Term
 		for _, a := range n.Args {
@@ -604,4 +647,300 @@ func sameOpaque(a, b Value) bool {
 	x, ok1 := a.(VOpaque)
 	y, ok2 := b.(VOpaque)
 	return ok1 && ok2 && x.Kind == y.Kind && x.ID == y.ID
+}
+
+// ---------------------------------------------------------------------------------
+// recursive specification functions (compiled to SMT define-funs-rec)
+
+func kindWidth(k string) (seq bool, width int) {
+	if strings.HasPrefix(k, "[]") {
+		seq = true
+		k = k[2:]
+	}
+	switch k {
+	case "int":
+		return seq, 1
+	case "QE":
+		return seq, 2
+	case "QE2":
+		return seq, 4
+	case "H":
+		return seq, 1
+	}
+	if strings.HasPrefix(k, "[") && strings.HasSuffix(k, "]int") {
+		n, err := strconv.Atoi(k[1 : len(k)-4])
+		if err == nil {
+			return seq, n
+		}
+	}
+	panic(execError{"recdef: unknown kind " + k})
+}
+
+func (c *evalCtx) callRecDef(rd *RecDef, n *ast.CallExpr) Value {
+	if len(n.Args) != len(rd.Params) {
+		panic(execError{"contract: wrong argument count for " + rd.Name})
+	}
+	// concrete recursion arguments over concrete-shaped sequences: unfold the definition here
+	vals := make([]Value, len(n.Args))
+	concrete := true
+	for i, a := range n.Args {
+		vals[i] = c.deref(c.eval(a))
+		seq, w := kindWidth(rd.Kinds[i])
+		if seq {
+			sl, ok := vals[i].(VSlice)
+			if !ok || !sl.Len.IsConst() || !sl.Off.IsConst() {
+				concrete = false
+			}
+		} else if w == 1 {
+			if !c.intOf(vals[i]).IsConst() && rd.Kinds[i] == "int" && isRecursionIndex(rd, i) {
+				concrete = false
+			}
+		}
+	}
+	if concrete && c.recDepth < 600 {
+		saved := map[string]Value{}
+		had := map[string]bool{}
+		for i, p := range rd.Params {
+			if v, ok := c.env[p]; ok {
+				saved[p], had[p] = v, true
+			}
+			pv := vals[i]
+			if sl, ok := pv.(VSlice); ok {
+				// elements are presented as flat tuples, exactly as in the compiled definition
+				psl := c.e.toPure(c.s, sl)
+				_, w := kindWidth(rd.Kinds[i])
+				inner := psl.Pure
+				off := psl.Off
+				cc := c
+				pv = VSlice{Pure: &Seq{Sym: func(j *Term) Value {
+					ev, ok := inner.at(Add(off, j))
+					if !ok {
+						panic(execError{"recdef: sequence index out of range during unfolding"})
+					}
+					fl := cc.flat(ev)
+					if w == 1 {
+						return VInt{fl[0]}
+					}
+					el := make([]Value, len(fl))
+					for q := range fl {
+						el[q] = VInt{fl[q]}
+					}
+					return VSpecTuple{el}
+				}}, Off: Int64C(0), Len: psl.Len, Cap: psl.Len}
+			} else if _, w := kindWidth(rd.Kinds[i]); w > 1 {
+				fl := c.flat(pv)
+				el := make([]Value, len(fl))
+				for q := range fl {
+					el[q] = VInt{fl[q]}
+				}
+				pv = VSpecTuple{el}
+			}
+			c.env[p] = pv
+		}
+		savedNames, savedOld := c.names, c.oldEnv
+		c.names, c.oldEnv = nil, nil
+		c.recDepth++
+		r := c.eval(rd.Body)
+		c.recDepth--
+		c.names, c.oldEnv = savedNames, savedOld
+		for _, p := range rd.Params {
+			if had[p] {
+				c.env[p] = saved[p]
+			} else {
+				delete(c.env, p)
+			}
+		}
+		return r
+	}
+	c.e.compileRecDef(rd)
+	var args []*Term
+	for i := range n.Args {
+		v := vals[i]
+		seq, w := kindWidth(rd.Kinds[i])
+		if seq {
+			sl, ok := v.(VSlice)
+			if !ok {
+				panic(execError{"contract: " + rd.Name + ": argument " + rd.Params[i] + " must be a slice"})
+			}
+			arrs := c.seqToArrays(sl, w)
+			args = append(args, arrs...)
+			args = append(args, sl.Len)
+			continue
+		}
+		fl := c.flat(v)
+		if len(fl) != w {
+			panic(execError{fmt.Sprintf("contract: %s: argument %s has %d leaves, want %d", rd.Name, rd.Params[i], len(fl), w)})
+		}
+		args = append(args, fl...)
+	}
+	_, rw := kindWidth(rd.ResKind)
+	if rw == 1 {
+		return VInt{App("rec$"+rd.Name+"$0", SInt, args...)}
+	}
+	el := make([]Value, rw)
+	for k := range el {
+		el[k] = VInt{App(fmt.Sprintf("rec$%s$%d", rd.Name, k), SInt, args...)}
+	}
+	return VSpecTuple{el}
+}
+
+// seqToArrays turns a slice into `width` SMT arrays indexed from 0.
+func (c *evalCtx) seqToArrays(sl VSlice, width int) []*Term {
+	boundSeq++
+	j := Bound(fmt.Sprintf("j$%d", boundSeq), SInt)
+	var elem Value
+	func() {
+		defer func() {
+			if r := recover(); r != nil {
+				if _, ok := r.(pathEnd); ok {
+					elem = nil
+					return
+				}
+				panic(r)
+			}
+		}()
+		elem = c.withHeap(func() Value { return c.e.sliceAt(c.s, sl, j) })
+	}()
+	if elem == nil {
+		// concrete-shaped slice: build store chains
+		if !sl.Len.IsConst() {
+			panic(execError{"contract: cannot convert slice to arrays"})
+		}
+		arrs := make([]*Term, width)
+		for k := range arrs {
+			arrs[k] = Fresh("seqarr", SArr)
+		}
+		for i := int64(0); i < sl.Len.Val.Int64(); i++ {
+			fl := c.flat(c.withHeap(func() Value { return c.e.sliceAt(c.s, sl, Int64C(i)) }))
+			for k := range arrs {
+				arrs[k] = Store(arrs[k], Int64C(i), fl[k])
+			}
+		}
+		return arrs
+	}
+	leaves := c.flat(elem)
+	if len(leaves) != width {
+		panic(execError{fmt.Sprintf("contract: sequence elements have %d leaves, want %d", len(leaves), width)})
+	}
+	arrs := make([]*Term, width)
+	fast := true
+	for k, lf := range leaves {
+		if lf.Op == "select" && lf.Args[1] == j && (lf.Args[0].Op == "var" || lf.Args[0].Op == "bound") {
+			arrs[k] = lf.Args[0]
+		} else {
+			fast = false
+		}
+	}
+	if fast {
+		return arrs
+	}
+	for k, lf := range leaves {
+		arrs[k] = Fresh("seqarr", SArr)
+		c.s.assume(Forall([]*Term{j}, Implies(And(Le(Int64C(0), j), Lt(j, sl.Len)), Eq(Select(arrs[k], j), lf))))
+	}
+	return arrs
+}
+
+// isRecursionIndex: an int parameter that the body changes in its recursive calls (i+1, k-1).
+func isRecursionIndex(rd *RecDef, idx int) bool {
+	found := false
+	ast.Inspect(rd.Body, func(n ast.Node) bool {
+		call, ok := n.(*ast.CallExpr)
+		if !ok {
+			return true
+		}
+		if id, ok := call.Fun.(*ast.Ident); ok && id.Name == rd.Name && idx < len(call.Args) {
+			if a, ok := call.Args[idx].(*ast.Ident); !ok || a.Name != rd.Params[idx] {
+				found = true
+			}
+		}
+		return true
+	})
+	return found
+}
+
+var recCompiling = map[string]bool{}
+
+func (e *Engine) compileRecDef(rd *RecDef) {
+	if rd.compiled || recCompiling[rd.Name] {
+		return
+	}
+	recCompiling[rd.Name] = true
+	defer func() { recCompiling[rd.Name] = false }()
+	env := map[string]Value{}
+	var decl []string
+	for i, p := range rd.Params {
+		seq, w := kindWidth(rd.Kinds[i])
+		if seq {
+			arrs := make([]*Term, w)
+			for k := range arrs {
+				arrs[k] = Bound(fmt.Sprintf("%s$a%d", p, k), SArr)
+				decl = append(decl, fmt.Sprintf("(%s (Array Int Int))", smtName(arrs[k].Name)))
+			}
+			ln := Bound(p+"$len", SInt)
+			decl = append(decl, fmt.Sprintf("(%s Int)", smtName(ln.Name)))
+			width := w
+			env[p] = VSlice{Pure: &Seq{Sym: func(i *Term) Value {
+				if width == 1 {
+					return VInt{Select(arrs[0], i)}
+				}
+				el := make([]Value, width)
+				for k := range el {
+					el[k] = VInt{Select(arrs[k], i)}
+				}
+				return VSpecTuple{el}
+			}}, Off: Int64C(0), Len: ln, Cap: ln}
+			continue
+		}
+		if w == 1 {
+			b := Bound(p+"$v", SInt)
+			decl = append(decl, fmt.Sprintf("(%s Int)", smtName(b.Name)))
+			env[p] = VInt{b}
+			continue
+		}
+		el := make([]Value, w)
+		for k := range el {
+			b := Bound(fmt.Sprintf("%s$v%d", p, k), SInt)
+			decl = append(decl, fmt.Sprintf("(%s Int)", smtName(b.Name)))
+			el[k] = VInt{b}
+		}
+		env[p] = VSpecTuple{el}
+	}
+	savedC := e.curC
+	e.curC = nil
+	c := &evalCtx{e: e, s: &State{heap: map[*Object]interface{}{}}, env: env}
+	body := c.eval(rd.Body)
+	e.curC = savedC
+	comps := c.flat(body)
+	_, rw := kindWidth(rd.ResKind)
+	if len(comps) != rw {
+		panic(execError{fmt.Sprintf("recdef %s: body has %d components, want %d", rd.Name, len(comps), rw)})
+	}
+	p := newPrinter()
+	var sigs, bodies []string
+	used := map[string]bool{}
+	appNames(comps, used)
+	for k := 0; k < rw; k++ {
+		sigs = append(sigs, fmt.Sprintf("(%s (%s) Int)", smtName(fmt.Sprintf("rec$%s$%d", rd.Name, k)), strings.Join(decl, " ")))
+		bodies = append(bodies, p.str(comps[k]))
+	}
+	def := "(define-funs-rec (" + strings.Join(sigs, " ") + ") (" + strings.Join(bodies, " ") + "))"
+	var deps []string
+	for u := range used {
+		if !strings.HasPrefix(u, "rec$"+rd.Name+"$") {
+			deps = append(deps, u)
+		}
+	}
+	for k := 0; k < rw; k++ {
+		name := fmt.Sprintf("rec$%s$%d", rd.Name, k)
+		if k == 0 {
+			definePrelude(name, -1, SInt, def)
+			preludeDeps[name] = deps
+		} else {
+			definePrelude(name, -1, SInt, "")
+			preludeDeps[name] = []string{fmt.Sprintf("rec$%s$0", rd.Name)}
+		}
+	}
+	rd.compiled = true
+	e.note("recursive spec function " + rd.Name + " is a definition by recursion on an index towards the sequence length (well-foundedness by inspection)")
 }
